@@ -5,6 +5,7 @@ import (
 	"context"
 	"fmt"
 	"io"
+	"math"
 	"os"
 	"strconv"
 	"strings"
@@ -257,6 +258,34 @@ func (nm LNumber) Format(f fmt.State, c rune) {
 	case 'b', 'U':
 		defaultFormat(int64(nm), f, c)
 	case 'e', 'E', 'f', 'F', 'g', 'G':
+		if v := float64(nm); math.IsInf(v, 0) || math.IsNaN(v) {
+			// C's printf writes inf and nan (INF and NAN for the upper-case conversions) with the
+			// usual sign rules and never zero-fills them; Go's fmt writes +Inf, -Inf, NaN
+			s := "inf"
+			if math.IsNaN(v) {
+				s = "nan"
+			}
+			if c == 'E' || c == 'F' || c == 'G' {
+				s = strings.ToUpper(s)
+			}
+			switch {
+			case v < 0:
+				s = "-" + s
+			case f.Flag('+'):
+				s = "+" + s
+			case f.Flag(' '):
+				s = " " + s
+			}
+			if w, _ := f.Width(); w > len(s) {
+				if f.Flag('-') {
+					s += strings.Repeat(" ", w-len(s))
+				} else {
+					s = strings.Repeat(" ", w-len(s)) + s
+				}
+			}
+			io.WriteString(f, s)
+			return
+		}
 		defaultFormat(float64(nm), f, c)
 	default:
 		if isInteger(nm) {
